@@ -1,13 +1,14 @@
 /-
   C01 — the checksum-database client never returns or caches unauthenticated data.
 
-  The composition theorem `lookup_authentic` needs the sequential client model (Model/Client.lean) built on the
-  tlog / tile / note models; it is stated, with the lower-layer lemmas it needs, in lean/PENDING.md.
-  What is proved here concerns the two stateful mechanisms of client.go that C01's clauses about the stored latest
-  tree head rest on, on the interleaved machine of Model/ClientLatest.lean: every value ever written to the stored head
-  is a parseable (validly signed) message that `checkTrees` related to the value it replaces.
+  Part 1 (interleaved latest-head machine, Model/ClientLatest.lean): every value ever written to the stored head is a
+  parseable (validly signed) message that `checkTrees` related to the value it replaces.
+  Part 2 (sequential client, Model/Client.lean, against an ARBITRARY environment): `lookup_authentic` — composition of
+  C07 `open_sound`, C09 `store_get` / `treeHash_eq_mth` and C10 `readHashes_authenticated`; helpers in
+  Proofs/ClientAuth.lean.  `honest_never_fails`: Proofs/ClientHonest.lean.
 -/
 import ModVerif.Proofs.ClientLatestInv
+import ModVerif.Proofs.ClientAuth
 namespace ModVerif.Props.C01
 open ModVerif ModVerif.ClientLatest
 
@@ -37,5 +38,150 @@ theorem stored_head_verified_partial (P : Params M T) (le : T → T → Prop) (h
   cases hl : s.latestMsg c with
   | none => simp [Verified]
   | some m => rw [hl] at hm; simp [MsgOf] at hm; simp [Verified, hm]
+
+
+/-! ## The sequential client against an arbitrary environment -/
+
+section sequential
+open ModVerif.Client ModVerif.Tile
+variable {σ H : Type} [DecidableEq H]
+
+/-- ★ **lookup_authentic.**  For EVERY environment `E` (state type, `ReadRemote`, `ReadCache`, `ReadConfig`, the results
+of `WriteConfig`: arbitrary functions of the whole history) and every log `D` of fewer than `2^62` records, under
+  (i)  signature soundness of the configured key (`KeySound`: whatever text a key handed out by the configuration verifies
+       and `ParseTree` reads as a tree head is a head `(n, MTH(D[0:n]))`, `n ≤ |D|`, of the one log `D`; see
+       `keySound_of_formatTree` for the `FormatTree` wording), and
+  (ii) injectivity of `NodeHash` and `RecordHash`:
+after any sequence of earlier lookups on the same client,
+  (1) if `Lookup(path, vers)` returns lines, they are exactly the lines with the prefix `path vers ` of a response
+      `id ‖ text ‖ rest` whose record text IS record `recIndex id` of `D` (the id in the response; a negative id is read as 0,
+      O5) and whose remainder is empty or a tree note accepted under the configured key, itself a head of `D`
+      (O3: the prefix filter runs over the whole response);
+  (2) every `WriteCache` ever performed carries such a response, or — under the tile's cache key — the bytes of the true
+      tile of a prefix of `D`;
+  (3) every `WriteConfig` ever attempted carries as its new value a message accepted under the configured key whose tree
+      is a head of `D`, replacing the empty value or an accepted head of strictly smaller size. -/
+theorem lookup_authentic (P : Params H) (D : List Bytes) (hD : D.length < 2 ^ 62)
+    (hnode : ∀ a b c d : H, P.node a b = P.node c d → a = c ∧ b = d)
+    (hleaf : ∀ x y : Bytes, P.leaf x = P.leaf y → x = y)
+    (E : Env σ) (hkey : KeySound P D E) (s0 : σ) (earlier : List (Bytes × Bytes)) (path vers : Bytes) :
+    let w := runLookups P E ⟨s0, newClient P, []⟩ earlier
+    let r := lookup P E w path vers
+    (∀ lines, r.1 = .ok lines → ∃ data id text rest,
+        TlogNote.parseRecord data = some (id, text, rest) ∧ D[recIndex id]? = some text ∧
+        (rest = [] ∨ ∃ hd, openTree P r.2.c.verifiers rest = .ok hd ∧ IsHead P D hd) ∧
+        lines = filterLines (path ++ [32] ++ vers ++ [32]) data) ∧
+    (∀ f d, Effect.writeCache f d ∈ r.2.tr →
+        (∃ id text rest, TlogNote.parseRecord d = some (id, text, rest) ∧ D[recIndex id]? = some text) ∨
+        (∃ t, f = tileCacheKey r.2.c.name t ∧ AuthTile P D t d)) ∧
+    (∀ f old new res, Effect.writeConfig f old new res ∈ r.2.tr →
+        ∃ hd, openTree P r.2.c.verifiers new = .ok hd ∧ IsHead P D hd ∧
+          (old = [] ∨ ∃ ho, openTree P r.2.c.verifiers old = .ok ho ∧ IsHead P D ho ∧ ho.n < hd.n)) := by
+  intro w r
+  have hw : Inv P D w := inv_runLookups P D hD hnode E hkey earlier _ (inv_newClient P D s0)
+  obtain ⟨hinv, hlines⟩ := lookup_spec P D hD hnode E hkey w hw path vers
+  have hauth : ∀ d, AuthResponse P D r.2.c.verifiers d → ∃ id text rest,
+      TlogNote.parseRecord d = some (id, text, rest) ∧ D[recIndex id]? = some text ∧
+      (rest = [] ∨ ∃ hd, openTree P r.2.c.verifiers rest = .ok hd ∧ IsHead P D hd) := by
+    intro d ⟨id, text, rest, hp, ⟨rec, hr1, hr2⟩, hrest⟩
+    refine ⟨id, text, rest, hp, by rw [hr1, hleaf text rec hr2], ?_⟩
+    rcases hrest with h | ⟨hd, h⟩
+    · exact Or.inl h
+    · exact Or.inr ⟨hd, h, hinv.core.sig rest hd h⟩
+  refine ⟨?_, ?_, ?_⟩
+  · intro lines hl
+    obtain ⟨data, ha, hfl⟩ := hlines lines hl
+    obtain ⟨id, text, rest, h1, h2, h3⟩ := hauth data ha
+    exact ⟨data, id, text, rest, h1, h2, h3, hfl⟩
+  · intro f d hmem
+    rcases hinv.core.trace _ hmem with ha | ht
+    · obtain ⟨id, text, rest, h1, h2, _⟩ := hauth d ha
+      exact Or.inl ⟨id, text, rest, h1, h2⟩
+    · exact Or.inr ht
+  · intro f old new res hmem
+    obtain ⟨hd, h1, h2, h3⟩ := hinv.core.trace _ hmem
+    refine ⟨hd, h1, h2, ?_⟩
+    rcases h3 with h | ⟨ho, h4, h5⟩
+    · exact Or.inl h
+    · exact Or.inr ⟨ho, h4, hinv.core.sig old ho h4, h5⟩
+
+/-- hypothesis (i) in the wording "every message the verifier accepts has text `formatTree ⟨n, mth (D.take n)⟩` for some
+`n ≤ |D|`" implies `KeySound` (hashes surviving their 32-byte encoding) -/
+theorem keySound_of_formatTree (P : Params H) (D : List Bytes) (E : Env σ)
+    (hD : (D.length : Int) ≤ Decimal.int64Max)
+    (henc : ∀ h, (P.enc h).length = 32) (hdec : ∀ h, P.dec (P.enc h) = h)
+    (hv : ∀ s k v, (E.readConfig s (B "key")).1 = some k →
+      Note.NewVerifier P.sha P.edVerify (GoStrings.trimSpace k) = .ok v → ∀ text sig, v.verify text sig = true →
+      ∃ n, n ≤ D.length ∧ text = TlogNote.formatTree ⟨(n : Int), P.enc (rootAt P D n)⟩) :
+    KeySound P D E :=
+  fun s k v h1 h2 => verifierSound_of_formatTree P D v hD henc hdec (hv s k v h1 h2)
+
+/-- ★ the same for `checkTrees` alone — the hook `ClientLatest.Sound.chk_ok`: against any environment, in any state
+satisfying the invariant, `checkTrees(older, newer)` with `newer` a head of `D` at least as large as `older` answers `nil`
+only if `older` is a head of `D` too; whatever it answers, every cache write it causes is a true tile. -/
+theorem checkTrees_sound (P : Params H) (D : List Bytes) (hD : D.length < 2 ^ 62)
+    (hnode : ∀ a b c d : H, P.node a b = P.node c d → a = c ∧ b = d)
+    (E : Env σ) (w : World σ H) (older newer : Head H) (olderNote newerNote : Bytes)
+    (hnewer : IsHead P D newer) (hle : older.n ≤ newer.n)
+    (hok : (checkTrees P E w older olderNote newer newerNote).1 = .ok ()) : IsHead P D older :=
+  (checkTrees_spec P D hD hnode E w older olderNote newer newerNote hnewer hle).2 hok
+
+/-! ### non-vacuity: term-algebra hashes (collision free by construction), a key that verifies exactly one genuine head -/
+
+def exCode : Bytes := List.replicate 32 7
+def exD : List Bytes := [B "example.com/m v1.0.0 h1:abc=\n"]
+def exHeadText : Bytes := TlogNote.formatTree ⟨1, exCode⟩
+
+def exParams : Params Tlog.TH :=
+  { leaf := Tlog.TH.leaf, node := Tlog.TH.node, empty := Tlog.TH.empty, hashSize := 32,
+    dec := fun b => if b = exCode then Tlog.TH.leaf (B "example.com/m v1.0.0 h1:abc=\n") else Tlog.TH.junk 0,
+    enc := fun _ => exCode, height := 2, nosumdb := [], isLetter := fun _ => false, glob := fun _ _ => false,
+    sha := fun _ => [0, 0, 0, 0], edVerify := fun _ text _ => text == exHeadText, retries := 3 }
+
+/-- an environment that answers every read with the same bytes -/
+def exEnv (answer : Bytes) : Env Unit :=
+  { readRemote := fun s _ => (some answer, s), readCache := fun s _ => (none, s), readConfig := fun s _ => (some answer, s),
+    writeCache := fun s _ _ => s, writeConfig := fun s _ _ _ => (.ok, s), securityError := fun s _ => s }
+
+/-- the hypotheses of `lookup_authentic` are jointly satisfiable, with a key that does verify a genuine head of the log -/
+example (answer : Bytes) :
+    exD.length < 2 ^ 62 ∧
+    (∀ a b c d : Tlog.TH, exParams.node a b = exParams.node c d → a = c ∧ b = d) ∧
+    (∀ x y : Bytes, exParams.leaf x = exParams.leaf y → x = y) ∧
+    KeySound exParams exD (exEnv answer) ∧
+    (∀ pub sig, exParams.edVerify pub exHeadText sig = true) := by
+  refine ⟨by decide, fun a b c d h => by cases h; exact ⟨rfl, rfl⟩, fun x y h => by cases h; rfl, ?_, fun _ _ => by simp [exParams]⟩
+  intro s k v _ hv text sig t hver hp
+  -- the verifier NewVerifier builds is `edVerify pub`
+  have hvf : text = exHeadText := by
+    unfold Note.NewVerifier at hv
+    split at hv
+    rename_i name vkey1 _
+    split at hv
+    rename_i hash16 key64 _
+    split at hv
+    · split at hv
+      · cases hv
+      · split at hv
+        · cases hv
+        · split at hv
+          · cases hv
+          · split at hv
+            · cases hv
+            · split at hv
+              · cases hv
+              · split at hv
+                · cases hv
+                · cases hv
+                  simpa [exParams] using hver
+    · cases hv
+  subst hvf
+  have hpt : TlogNote.parseTree exHeadText = some ⟨1, exCode⟩ :=
+    Props.C09.parseTree_formatTree ⟨1, exCode⟩ (by decide) (by decide) (by decide)
+  rw [hpt] at hp
+  cases hp
+  exact ⟨by decide, by simp [exParams, rootAt, exD, RFC6962.mth, RFC6962.mthF]⟩
+
+end sequential
 
 end ModVerif.Props.C01
